@@ -328,6 +328,7 @@ class RangeAnalysis:
         self.depth = depth
         self.stop = set(stop)
         self.res = Resolver(body)
+        self.ptrmap = getattr(facts, 'ptrmap', None)    # {static name: index} for finite pointer domains (C20)
         self.reach = {}
         self.mixed = []        # (bb, reason) branches that depend on x in a way we cannot decide
         self.opaque = []       # bbs with x-independent branches
@@ -347,6 +348,15 @@ class RangeAnalysis:
         k = e[0]
         if k == 'c':
             return AV.const(e[1], ty_bits(e[2]) or 64, N)
+        if self.ptrmap is not None:
+            pe = strip_ref(e)
+            if pe in self.xkeys:
+                return AV.ident(self.xbits, N)
+            if pe[0] == 'cptr' and pe[2] == 0:
+                import json as _json
+                tgt = _json.loads(pe[1]).get('static')
+                if tgt in self.ptrmap:
+                    return AV.const(self.ptrmap[tgt], self.xbits, N)
         if k == 'loc':
             if e[1] in self.env:
                 return self.env[e[1]]
@@ -522,6 +532,8 @@ class RangeAnalysis:
             if mm and ty_bits(mm.group(2)) and ty_bits(mm.group(1)) and ty_bits(mm.group(2)) >= ty_bits(mm.group(1)):
                 return AV(v.pieces, ty_bits(mm.group(2)))
             return self.top()
+        if self.ptrmap is not None and short == 'eq' and len(args) == 2 and ('PartialEq' in fn or 'Encoding' in fn):
+            return self.binop(('bin', 'Eq', args[0], args[1]))
         b = self.facts.body(fn)
         if b is not None and self.depth < 3 and len(args) == b.arg_count:
             env = {}
@@ -530,6 +542,7 @@ class RangeAnalysis:
                 av = self.ev(a)
                 env[i + 1] = av
             sub = RangeAnalysis(self.facts, b, set(), self.xbits, self.dom, (0,), env, self.depth + 1, self.N)
+            sub.ptrmap = self.ptrmap
             if sub.mixed:
                 return self.top()
             return sub.return_value()
@@ -541,7 +554,7 @@ class RangeAnalysis:
         if not self.acyclic or l in self._phi_guard:
             return self.top()
         defs = self.body.defs.get(l, [])
-        if not defs or any(k not in ('assign',) for _, _, k, _ in defs):
+        if not defs or any(k not in ('assign', 'call') for _, _, k, _ in defs):
             return self.top()
         self._phi_guard.add(l)
         try:
@@ -556,7 +569,10 @@ class RangeAnalysis:
                     return self.top(bits)
                 covered = covered | r
                 saved = self.res.cur
-                v = self.ev(self.res.rvalue(node['rv']))
+                if k == 'call':
+                    v = self.ev(self.res.call(node, bi, 0))
+                else:
+                    v = self.ev(self.res.rvalue(node['rv']))
                 for lo, hi in r.iv:
                     for plo, phi_, kk, a in v.pieces:
                         a0, b0 = max(lo, plo), min(hi, phi_)
